@@ -49,7 +49,7 @@ const (
 	SeamAfterUnlock  = MaxSites + 7
 	SeamMapOrder     = MaxSites + 8
 	SeamTaskStart    = MaxSites + 9
-	NumSeams         = 10
+	NumSeams         = 11
 )
 
 // Strategies.
